@@ -36,7 +36,7 @@ Reset == /\ Is("Reset") /\ bad' = {} /\ rcvd' = <<>> /\ fresh' = <<>> /\ due' = 
 Mad == /\ Is("Mad") /\ mad' = Set(mad, <<e.n, e.c>>, e.mad) /\ bad' = bad /\ l' = l + 1
        /\ UNCHANGED <<rcvd, fresh, due, who, late, ackfreq, deviations, cur>>
 Conn == /\ Is("Conn") /\ who' = Set(who, <<e.n, e.c>>, e.uid) /\ bad' = bad /\ l' = l + 1
-        /\ due' = Set(due, e.uid, -1) /\ fresh' = Set(fresh, e.uid, FALSE)
+        /\ due' = Set(due, e.uid, -1) /\ fresh' = Set(fresh, e.uid, {})
         /\ UNCHANGED <<rcvd, mad, late, ackfreq, deviations, cur>>
 
 \* an acknowledgement owed since `due` has not been sent although its time is up
@@ -53,7 +53,8 @@ Rcv ==
          dataAe == \E i \in 1 .. Len(e.pks) : e.pks[i].ae /\ e.pks[i].sp = 2
      IN
        /\ rcvd' = AddAll(rcvd, u, e.pks, Len(e.pks))
-       /\ fresh' = IF anyAe THEN Set(fresh, u, TRUE) ELSE fresh
+       \* the spaces in which something ack-eliciting has arrived since the last ACK for that space
+       /\ fresh' = Set(fresh, u, At(fresh, u, {}) \cup {e.pks[i].sp : i \in {j \in 1 .. Len(e.pks) : e.pks[j].ae}})
        \* the clock of the latency clause starts with an ack-eliciting 1-RTT packet that was certainly
        \* processed by an established connection
        /\ due' = IF dataAe /\ e.all /\ e.est /\ e.keys /\ At(due, u, -1) = -1 THEN Set(due, u, e.t) ELSE due
@@ -71,8 +72,8 @@ Snd ==
      IN
        /\ bad' = bad
             \cup Flag(\A i \in 1 .. Len(e.acks) : RangesReceived(u, e.acks[i]), "AckedPacketNeverReceived")
-            \cup Flag(e.ackonly => At(fresh, u, FALSE), "AckOnlyAnsweredByAckOnly")
-       /\ fresh' = IF hasAck THEN Set(fresh, u, FALSE) ELSE fresh
+            \cup Flag(e.ackonly => \E i \in 1 .. Len(e.acks) : e.acks[i].sp \in At(fresh, u, {}), "AckOnlyAnsweredByAckOnly")
+       /\ fresh' = IF hasAck THEN Set(fresh, u, At(fresh, u, {}) \ {e.acks[i].sp : i \in 1 .. Len(e.acks)}) ELSE fresh
        /\ due' = IF dataAck \/ ~e.est THEN Set(due, u, -1) ELSE due
   /\ l' = l + 1 /\ UNCHANGED <<rcvd, mad, who, late, ackfreq, deviations, cur>>
 
